@@ -961,10 +961,34 @@ func c18R5(c *Ctx) {
 				return
 			}
 			call, ok := mu.Value.(*ssa.Call)
-			if !ok || !strings.HasSuffix(calleeName(call.Common()), "schema.NewPropertySchema") || len(call.Call.Args) == 0 {
+			if !ok || len(call.Call.Args) == 0 {
 				return
 			}
 			t := call.Call.Args[0]
+			if !strings.HasSuffix(calleeName(call.Common()), "schema.NewPropertySchema") {
+				// a property constructor of the package (`newCombinedObjectProperty(t)`): a function that returns
+				// NewPropertySchema(<its parameter>, …)
+				h := call.Common().StaticCallee()
+				if h == nil || !isRepoFn(h) || len(h.Blocks) == 0 {
+					return
+				}
+				pi := -1
+				eachInstr(h, func(r2 instrRef) {
+					c2, ok := r2.I.(*ssa.Call)
+					if !ok || !strings.HasSuffix(calleeName(c2.Common()), "schema.NewPropertySchema") || len(c2.Call.Args) == 0 {
+						return
+					}
+					for k, fp := range h.Params {
+						if c2.Call.Args[0] == ssa.Value(fp) {
+							pi = k
+						}
+					}
+				})
+				if pi < 0 || pi >= len(call.Call.Args) {
+					return
+				}
+				t = call.Call.Args[pi]
+			}
 			switch k {
 			case "item":
 				itemT = derivesFrom(t, isItemsOf)
